@@ -53,7 +53,7 @@ PROPS = {
  'C07': dict(level='other', scenarios=[('parsex5', 1, 1), ('parse', 6000, 40000), ('hist', 2400, 20000), ('clone', 600, 4000)],
     primary=['Panic'], secondary=['Parse', 'HarnessCrash'],
     nontrivial=dict(stat=lambda s: False, line=lambda l: l.startswith('parse ') and ' terr ' in l),
-    rule='every string of length <= 5 (quick) / 6 (thorough) over / { } ( ) \\ : * a b e-acute offered to the parser hook, random well- and malformed templates through insert/delete/search/clone/Display under catch_unwind (debug build, overflow checks on); non-trivial = rejected template',
+    rule='every string of length <= 5 (quick) / 6 (thorough) over / { } ( ) \\ : * a b e-acute Z-caron offered to the parser hook, random well- and malformed templates through insert/delete/search/clone/Display under catch_unwind (debug build, overflow checks on); non-trivial = rejected template',
     explanation='No closed Coq theorem decides this property yet (statement and plan: DESIGN.md section 8). What decides it in this run: (i) correspondence - the executable Gallina model (parser, tree operations, search, Display, error rendering; coq/Model) is run one step from every REAL pre-state on the same operation and must produce the same result and the same tree as the crate; (ii) specification oracles extracted from coq/Spec (independent grammar, registry, W, canonical shape, error-position checker) judge the crate\'s outputs directly. Level `other`: differential + executable-specification checking with the oracles written in Coq; theorems about the model for this property are future work.'),
  'C08': dict(level='other', scenarios=[('hist', 4800, 40000), ('conflict', 1800, 15000)],
     primary=['SpecInsert'], secondary=['OpsInsert', 'Routes'],
@@ -193,7 +193,7 @@ PROPS['C11']['explanation'] = ('Closed theorems (Properties/C11.v) against the d
     'whole parser computes template_spec. Proof: index-vs-suffix lemmas for static_part/static_text, brace_scan/brace_content, find_colon/split_colon, the parameter tail, and the loop invariant '
     '(previous-parameter flag = last seen parameter ends at the cursor; seen names agree); valid UTF-8 cut before an ASCII delimiter stays valid, so the parser\'s from_utf8 checks never fire. '
     'Partial, named: that expand_optional_groups enumerates expansions_spec (balanced non-empty parentheses, keep/drop choices, order) has no theorem yet; it is decided by the Grammar oracle: '
-    'template_spec vs the real parser hook on every string of length <= 5/6 over the 11-symbol syntax alphabet and on random well/ill-formed templates (incl. semantic fault injection), plus the model parser '
+    'template_spec vs the real parser hook on every string of length <= 5/6 over the 12-symbol syntax alphabet and on random well/ill-formed templates (incl. semantic fault injection), plus the model parser '
     'vs the real one (Parse). invalid_chars_documented is re-proved on the constant regenerated from src/parser.rs every run.')
 
 PROPS['C11']['explanation'] = ('Closed theorems (Properties/C11.v) against the documented language written over lists (Spec/Grammar.v: gparse / expand_items for the optional groups, wellformed_exp for one '
@@ -203,7 +203,7 @@ PROPS['C11']['explanation'] = ('Closed theorems (Properties/C11.v) against the d
     'C11_rejected_iff_not_documented; per expansion: C11_one_expansion_parsed_as_documented). Proof: (1) the index-based group scanner equals a list-level scanner (scan_is_scanL); (2) the list scanner '
     'equals the recursive-descent grammar (matching parenthesis by depth counting = first unmatched \')\' of gparse: depth_after, G_balanced, G_unclosed; product algebra of expand_items) - expandL_spec; '
     '(3) per expansion, index-vs-suffix lemmas and the loop invariant (parse_template_spec); valid UTF-8 cut at ASCII delimiters stays valid (utf8_cut, utf8_app), so from_utf8 checks never fire. '
-    'Tie to the code: the model parser vs the real parser hook (Parse: every string of length <= 5/6 over the 11-symbol syntax alphabet, random templates with semantic fault injection), and '
+    'Tie to the code: the model parser vs the real parser hook (Parse: every string of length <= 5/6 over the 12-symbol syntax alphabet, random templates with semantic fault injection), and '
     'template_spec vs the real hook directly (Grammar). invalid_chars_documented is re-proved on the constant regenerated from src/parser.rs every run.')
 PROPS['C04']['level'] = 'proof'
 PROPS['C04']['explanation'] = ('Closed theorems (Properties/C04.v): C04_expansions_as_documented / C04_parser_returns_the_documented_expansions - for every valid UTF-8 template the parser model returns '
@@ -213,5 +213,24 @@ PROPS['C04']['explanation'] = ('Closed theorems (Properties/C04.v): C04_expansio
     'With C03 (search = documented walk over the stored routes, for every history) a grouped template routes exactly as the set of its expansions. Partial, named: the side-by-side statement '
     '"router holding the grouped template == router holding the expansions inserted one by one, up to the reported template/expansion fields" is not a single theorem (it needs expand(e) = [e] for every '
     'expansion text e); it is decided by the groups scenario: W on the registry built from the spec expansions for both routers, hook output vs expansions_spec incl. order.')
+
+PROPS['C14']['level'] = 'proof'
+PROPS['C14']['explanation'] = ('Closed theorems (Properties/C14.v). Rendering half: C14_render_caret_line over the format strings regenerated from src/errors/template.rs every run (the message shows the reported '
+    'template followed by a caret line of exactly `position` spaces and `length` carets). Fault-present half, for EVERY input and every error the parser model returns (C14_error_names_a_present_fault): '
+    'group errors report the input itself and point at "()" (EmptyParentheses) or at a parenthesis (UnbalancedParenthesis) - nested scans run on balanced ranges and can only report an empty pair '
+    '(depth_after invariant); every other error reports one of the DOCUMENTED expansions of the input (expand = expansions_spec) and, inside it, "{}" (EmptyBraces), a brace (UnbalancedBrace), the '
+    'brace-delimited parameter from \'{\' to its matching \'}\' (Empty/Invalid Parameter, EmptyWildcard, Empty/Invalid Constraint), two disjoint brace-delimited parameters in order (DuplicateParameter), two '
+    'adjacent brace-delimited parameters (TouchingParameters), or a text not starting with \'/\' (MissingLeadingSlash); all positions and lengths lie inside the reported text. Partial, named: the finer '
+    'classification (the name really is empty / holds an invalid character / is the duplicated one; an unbalanced-parenthesis error points at an UNMATCHED one; an unbalanced-brace error at the FIRST brace '
+    'fault) is decided by the oracle err_ok_b on every error of the exhaustive (length <= 5/6 over the 12-symbol alphabet) and random streams; the model parser is tied to the real one by Parse.')
+PROPS['C17']['level'] = 'proof'
+PROPS['C17']['explanation'] = ('Closed theorems (Properties/C17.v) about the model routers built from the route table REGENERATED from examples/oci/src every run (Gen/Oci.v), one per HTTP method, with the name '
+    'constraint decided by the repository-name grammar name_ok: they are routers reached by a history of inserts (C17_model_routers_are_histories), every insert of the table succeeds '
+    '(C17_every_table_insert_succeeds, by computation on the regenerated table), the stored routes are exactly the expansions of the table\'s templates incl. the trailing-slash group '
+    '(C17_stored_routes_are_the_table_expansions); hence, for EVERY URL (no length bound): a routed URL is a genuine reading - a template of the table for that method laid over the URL, the name accepted '
+    'by the grammar, parameters verbatim (C17_routed_url_is_a_genuine_reading, instance of C01) - and a URL that has such a reading is routed (C17_url_with_a_reading_is_routed, instance of C02), so URLs '
+    'whose name violates the grammar are not routed. Partial, named: that the method -> handler table equals end-1..end-10 of the distribution specification (oracle spec_handler on every generated method x URL; '
+    'KNOWN FINDING K1: end-5 PATCH has no route), which reading wins when a URL has several (oracle: one of the readings; C03 gives the rule), and that the `regex` crate decides name_ok (OciName: the compiled '
+    'regex vs name_ok on every string of length <= 6 over a 0 . _ - / A).')
 
 NOT_APPLICABLE = {}
